@@ -1,0 +1,13 @@
+//go:build verif
+
+package lib
+
+// VerifHook, when set by the verification harness, is called before each atomic step of Task
+// (the harness parks the calling goroutine there to replay a chosen interleaving).
+var VerifHook func(s *Task, name string)
+
+func verifPoint(s *Task, name string) {
+	if h := VerifHook; h != nil {
+		h(s, name)
+	}
+}
